@@ -38,4 +38,5 @@ func main() {
 	genWalkImpl(info)
 	genPrintProg(info)
 	genGlobals()
+	genSkeleton()
 }
